@@ -114,6 +114,83 @@ func unfoldRules(c *core.Ctx) {
 			return
 		}
 	}
+	// the root call starts from an empty listing (a pre-filled one shifts every ID and invents entries)
+	{
+		root := ui.rootCall
+		startsEmpty := func(v ssa.Value) bool {
+			switch x := v.(type) {
+			case *ssa.MakeSlice:
+				k, isK := x.Len.(*ssa.Const)
+				return isK && k.Value != nil && k.Value.ExactString() == "0"
+			case *ssa.Const:
+				return x.IsNil()
+			case *ssa.Slice:
+				// make([]T, 0) with constant bounds, or []T{}: a fresh array resliced to length 0
+				if al, isAl := x.X.(*ssa.Alloc); isAl {
+					if hk, isK := x.High.(*ssa.Const); isK && hk.Value != nil && hk.Value.ExactString() == "0" {
+						return true
+					}
+					if at, isArr := al.Type().(*types.Pointer).Elem().Underlying().(*types.Array); isArr && at.Len() == 0 {
+						return true
+					}
+				}
+			}
+			return false
+		}
+		okRoot := false
+		why := "the listing handed to the unfolding is not known to be empty"
+		if ui.seqP >= 0 {
+			v := root.Call.Args[ui.seqP]
+			for {
+				if ct, isCT := v.(*ssa.ChangeType); isCT {
+					v = ct.X
+					continue
+				}
+				break
+			}
+			okRoot = startsEmpty(v)
+			why = fmt.Sprintf("the root call passes %v as the initial listing, expected an empty slice", v)
+		} else {
+			// state object: the listing cell must be initialised empty (or left at its zero value) before the root call
+			newFn := c.W.Func("hseq", "New")
+			nan := c.AnalyzeLoopsExcept(newFn, uf, c.W.Func("hseq", "ForName"))
+			okRoot = len(nan.Problems) == 0
+			for _, p := range nan.AllPaths() {
+				for i := range p.Steps {
+					st := &p.Steps[i]
+					if st.Kind != ir.KCall || st.Static != uf {
+						continue
+					}
+					cellAt := &ir.Term{Op: "faddr", Aux: ui.cellField, Args: []*ir.Term{st.A[ui.recvP]}}
+					var last *ir.Term
+					for _, s2 := range p.Steps[:i] {
+						if s2.Kind == ir.KStore && ir.Same(s2.A[0], cellAt) {
+							last = s2.A[1]
+						}
+						if s2.Kind == ir.KStore && ir.Same(s2.A[0], st.A[ui.recvP]) && s2.A[1].Op == "lit" {
+							last = ir.FieldOf(s2.A[1], ui.cellField)
+						}
+					}
+					empty := last == nil || last.IsNil() || last.Op == "const" && strings.HasPrefix(last.Aux, "zero")
+					if last != nil && last.Op == "mkslice" && len(last.Args) > 0 {
+						if k, isK := last.Args[0].IntConst(); isK && k == 0 {
+							empty = true
+						}
+					}
+					if last != nil && last.Op == "slice" && len(last.Args) == 4 {
+						if k, isK := last.Args[2].IntConst(); isK && k == 0 {
+							empty = true
+						}
+					}
+					if !empty {
+						okRoot = false
+						why = "the listing of the state object is initialised with " + short(last) + ", expected an empty slice"
+					}
+				}
+			}
+		}
+		c.Check(okRoot, "append-once", "hseq.New#root-call", root.Pos(), "the unfolding starts from an empty listing", "%s", why)
+	}
 	for _, p := range an.Segs[nil] {
 		if p.To == nil {
 			// no field at all: the listing stays as it is
